@@ -1,12 +1,15 @@
 package main
 
 import (
+	"bufio"
 	"bytes"
 	"encoding/binary"
 	"encoding/json"
 	"errors"
 	"fmt"
 	"io"
+	"net"
+	"net/http"
 	"os"
 	"runtime"
 	"runtime/debug"
@@ -65,9 +68,14 @@ type message struct {
 }
 
 type wsCase struct {
-	Role      string    `json:"role"`
-	Limit     int64     `json:"limit"`
-	Fam       string    `json:"fam"`
+	Role  string `json:"role"`
+	Limit int64  `json:"limit"`
+	Fam   string `json:"fam"`
+	// Bufsize is the read buffer size the application configures (0: default). Where the family has it as a
+	// dimension (Bufdim) every run of the case uses it; otherwise the replayer sweeps bufSweep on its own.
+	// The expectation never depends on it (WsReader: no action reads bufsize; BufferBlind).
+	Bufsize   int       `json:"bufsize"`
+	Bufdim    bool      `json:"bufdim"`
 	Steps     []step    `json:"steps"`
 	Delivered []message `json:"delivered"`
 	Pongs     []frag    `json:"pongs"`
@@ -206,10 +214,18 @@ type variant struct {
 	// the peer may still send data and control frames until it answers the Close); what is delivered must
 	// not depend on it, only the frames written back are no longer possible
 	LocalClose bool
+	// Hijack > 0 (server role only): the connection is made by the real Upgrader from a hijacked HTTP connection whose
+	// bufio.Reader has this size (the library may go on using that reader instead of one of ReadBuf bytes); the
+	// source of the read buffer is configuration too, and the outcome must not depend on it
+	Hijack int
 }
 
 func (v variant) String() string {
-	return fmt.Sprintf("api=%s seg=%s readbuf=%d eof-with-data=%v local-close-sent=%v", []string{"ReadMessage", "NextReader+ReadAll", "NextReader+Read(3)"}[v.API], v.Seg, v.ReadBuf, v.EOFData, v.LocalClose)
+	s := fmt.Sprintf("api=%s seg=%s readbuf=%d eof-with-data=%v local-close-sent=%v", []string{"ReadMessage", "NextReader+ReadAll", "NextReader+Read(3)"}[v.API], v.Seg, v.ReadBuf, v.EOFData, v.LocalClose)
+	if v.Hijack > 0 {
+		s += fmt.Sprintf(" via-upgrader(hijacked-reader=%d)", v.Hijack)
+	}
+	return s
 }
 
 // readOne reads the next message with the chosen API.
@@ -239,6 +255,40 @@ func readOne(ws *websocket.Conn, api int) (int, []byte, error) {
 	}
 }
 
+// hijackRW is the http.ResponseWriter of a server that lets its connection be taken over.
+type hijackRW struct {
+	conn net.Conn
+	brw  *bufio.ReadWriter
+	hdr  http.Header
+}
+
+func (h *hijackRW) Header() http.Header         { return h.hdr }
+func (h *hijackRW) Write(p []byte) (int, error) { return len(p), nil }
+func (h *hijackRW) WriteHeader(int)             {}
+func (h *hijackRW) Hijack() (net.Conn, *bufio.ReadWriter, error) {
+	return h.conn, h.brw, nil
+}
+
+// upgraded makes the server connection with the real Upgrader (opening handshake of RFC 6455 4.2.1 answered over conn).
+func upgraded(conn net.Conn, v variant) *websocket.Conn {
+	req, err := http.NewRequest("GET", "http://verif.example/ws", nil)
+	if err != nil {
+		rp.Bug("request: %v", err)
+	}
+	req.Header.Set("Connection", "Upgrade")
+	req.Header.Set("Upgrade", "websocket")
+	req.Header.Set("Sec-Websocket-Version", "13")
+	req.Header.Set("Sec-Websocket-Key", "dGhlIHNhbXBsZSBub25jZQ==")
+	w := &hijackRW{conn: conn, hdr: http.Header{},
+		brw: bufio.NewReadWriter(bufio.NewReaderSize(conn, v.Hijack), bufio.NewWriterSize(conn, 4096))}
+	up := websocket.Upgrader{ReadBufferSize: v.ReadBuf, WriteBufferSize: 1024}
+	ws, err := up.Upgrade(w, req, nil)
+	if err != nil {
+		rp.Bug("the Upgrader refused a correct opening handshake: %v", err)
+	}
+	return ws
+}
+
 // drive feeds wire (ending the stream after it) to a fresh connection of the role and reads until failure.
 func drive(cs *wsCase, wire []byte, v variant, seed int, maxMsgs int) observed {
 	a, _ := transport.NewConnPair()
@@ -246,7 +296,20 @@ func drive(cs *wsCase, wire []byte, v variant, seed int, maxMsgs int) observed {
 	a.In.Write(wire)
 	a.In.EOFWithData = v.EOFData
 	a.In.CloseWrite()
-	ws := websocket.VerifNewConn(a, cs.Role == "server", v.ReadBuf, 0, false)
+	var ws *websocket.Conn
+	skip := 0
+	if v.Hijack > 0 {
+		if cs.Role != "server" {
+			rp.Bug("the Upgrader makes server connections only")
+		}
+		ws = upgraded(a, v)
+		skip = a.Out.Len() // the HTTP response
+		if skip < 4 || !bytes.HasSuffix(a.Out.Bytes(), []byte("\r\n\r\n")) {
+			rp.Bug("no HTTP response written by the Upgrader: %q", a.Out.Bytes())
+		}
+	} else {
+		ws = websocket.VerifNewConn(a, cs.Role == "server", v.ReadBuf, 0, false)
+	}
 	if cs.Limit > 0 {
 		ws.SetReadLimit(cs.Limit)
 	}
@@ -273,8 +336,8 @@ func drive(cs *wsCase, wire []byte, v variant, seed int, maxMsgs int) observed {
 		o.Err2 = err
 		o.Msg2 = err == nil
 	}
-	o.Wrote = a.Out.Bytes()
-	o.Wrote2 = len(o.Wrote) - before
+	o.Wrote = a.Out.Bytes()[skip:]
+	o.Wrote2 = len(o.Wrote) + skip - before
 	return o
 }
 
@@ -526,7 +589,22 @@ func cutOffsets(frameLen, headerLen int, thorough bool, seed int) []int {
 	return out
 }
 
-func deviationOf(cs *wsCase, kind string, o observed) string {
+func deviationOf(cs *wsCase, kind string, o observed, v variant, payloadLens []int) string {
+	// C14/control-needs-buffer: a control frame (legal: <= 125 bytes) longer than the configured read buffer was
+	// the first frame not taken in, and the read failed with an error of the reader's own
+	if cls, _ := classOf(o.Err); cls == "other" && v.ReadBuf > 0 && (kind == "missing" || kind == "pongs" || kind == "outcome") {
+		for k, s := range cs.Steps {
+			if s.Abs {
+				break
+			}
+			if s.Op >= 8 && payloadLens[k] <= 125 && payloadLens[k] > v.ReadBuf && s.Failed != "protocol" {
+				return "C14/control-needs-buffer"
+			}
+			if s.Failed != "no" {
+				break
+			}
+		}
+	}
 	// the named deviations of the specification, recognised on the first failing step
 	for _, s := range cs.Steps {
 		if s.Failed != "no" || s.Abs {
@@ -546,6 +624,17 @@ func deviationOf(cs *wsCase, kind string, o observed) string {
 }
 
 var segs = []string{"whole", "one", "random"}
+
+// bufSweep: the read buffer sizes tried where the case does not fix one (the same set as BufSizes of the
+// bufsize family: default, below / at / above a frame header, below / at / above the largest control payload).
+var bufSweep = []int{0, 1, 2, 13, 14, 15, 64, 124, 125, 126, 1024}
+
+func sweep(k int) int {
+	if k < 0 {
+		k = -k
+	}
+	return bufSweep[k%len(bufSweep)]
+}
 
 // one case under a watchdog; a panic escaping the library is a verdict, a harness bug ends the process
 func guarded(c *rp.Ctx, i int, raw json.RawMessage) rp.Result {
@@ -611,14 +700,19 @@ func replayCase(c *rp.Ctx, idx int, raw json.RawMessage) rp.Result {
 	// its position in the file: a failing case must fail the same way when vcheck replays it alone
 	i := rp.ContentHash(raw) % 1000003
 	_ = idx
+	if cs.Bufsize < 0 {
+		rp.Bug("case %d: read buffer size %d", idx, cs.Bufsize)
+	}
 	if len(cs.Steps) == 0 || len(cs.End) == 0 || (cs.Role != "server" && cs.Role != "client") {
 		rp.Bug("malformed case %d", idx)
 	}
 	thorough := c.Tier == "thorough"
 	var wire []byte
 	lastStart, lastHdr := 0, 0
+	payloadLens := make([]int, len(cs.Steps))
 	for k, s := range cs.Steps {
 		f, h := expand(s, c.Seed)
+		payloadLens[k] = len(f) - h
 		if k == len(cs.Steps)-1 {
 			lastStart, lastHdr = len(wire), h
 		}
@@ -630,16 +724,47 @@ func replayCase(c *rp.Ctx, idx int, raw json.RawMessage) rp.Result {
 
 	fail := func(what, kind string, v variant, where string, o observed) rp.Result {
 		return rp.Result{OK: false, What: fmt.Sprintf("%s role, limit %d, %d frame(s), %s, %s: %s", cs.Role, cs.Limit, len(cs.Steps), where, v, what),
-			Deviation: deviationOf(&cs, kind, o),
+			Deviation: deviationOf(&cs, kind, o, v, payloadLens),
 			Observed:  map[string]interface{}{"messages": len(o.Msgs), "err": fmt.Sprint(o.Err), "wrote": fmt.Sprintf("% x", o.Wrote)}}
 	}
 
+	// The only real-time element of a run is the library's own write deadline for the frames it answers with (pong,
+	// close: now + 1 s). A run takes microseconds; on a starved machine a run that was suspended for about that long
+	// can lose such a frame. A failing run that lasted long enough for that is driven again - a failure of the
+	// library on these (deterministic) inputs fails again at once; a run that was not suspended is never repeated.
+	run := func(w []byte, v variant, cmp func(o observed) (string, string)) (observed, string, string) {
+		for attempt := 0; ; attempt++ {
+			t0 := time.Now()
+			o := drive(&cs, w, v, c.Seed, maxMsgs)
+			el := time.Since(t0)
+			runs++
+			what, kind := cmp(o)
+			if what == "" || el < 800*time.Millisecond || attempt >= 3 {
+				return o, what, kind
+			}
+			fmt.Fprintf(os.Stderr, "replay: case %d: a failing run took %v (the library's 1 s write deadline may have expired), driven again: %s\n", idx, el, what)
+		}
+	}
+
 	// (1) the stream ends after the last frame
-	variants := []variant{{API: 0, Seg: "whole"}, {API: 1 + (i+c.Seed)%2, Seg: segs[1+(i+c.Seed)%2], ReadBuf: []int{0, 125, 1024}[(i/2+c.Seed)%3]},
+	variants := []variant{{API: 0, Seg: "whole"}, {API: 1 + (i+c.Seed)%2, Seg: segs[1+(i+c.Seed)%2], ReadBuf: sweep(i/2 + c.Seed)},
 		{API: (i + c.Seed) % 2, Seg: "whole", ReadBuf: 125, EOFData: true}}
 	if thorough {
-		variants = []variant{{API: 0, Seg: "whole"}, {API: 1, Seg: "one", ReadBuf: 125}, {API: 2, Seg: "random", ReadBuf: 1024}, {API: (i + c.Seed) % 3, Seg: "random"},
+		variants = []variant{{API: 0, Seg: "whole"}, {API: 1, Seg: "one", ReadBuf: 125}, {API: 2, Seg: "random", ReadBuf: 1024}, {API: (i + c.Seed) % 3, Seg: "random", ReadBuf: sweep(i + c.Seed)},
 			{API: 0, Seg: "whole", ReadBuf: 125, EOFData: true}, {API: 1, Seg: "random", ReadBuf: 125, EOFData: true}}
+	}
+	if cs.Role == "server" {
+		// the same through the real Upgrader: hijacked reader smaller than / at / above the size the library reuses, and the default
+		variants = append(variants, variant{API: (i + c.Seed) % 3, Seg: segs[(i/5+c.Seed)%3], Hijack: []int{16, 64, 255, 256, 300, 4096}[(i/7+c.Seed)%6]})
+	}
+	fixBuf := func(v variant) variant {
+		if cs.Bufdim {
+			v.ReadBuf = cs.Bufsize
+		}
+		return v
+	}
+	for j := range variants {
+		variants[j] = fixBuf(variants[j])
 	}
 	if len(wire) > 40000 {
 		// large payloads: byte-wise delivery of 64 KiB frames costs too much for every case
@@ -650,9 +775,8 @@ func replayCase(c *rp.Ctx, idx int, raw json.RawMessage) rp.Result {
 		}
 	}
 	for _, v := range variants {
-		o := drive(&cs, wire, v, c.Seed, maxMsgs)
-		runs++
-		if what, kind := compare(&cs, o, c.Seed, cs.Delivered, cs.Pongs, cs.End); what != "" {
+		o, what, kind := run(wire, v, func(o observed) (string, string) { return compare(&cs, o, c.Seed, cs.Delivered, cs.Pongs, cs.End) })
+		if what != "" {
 			return fail(what, kind, v, "stream ended after the last frame", o)
 		}
 		if cs.Clean && wrote1002(o.Wrote) {
@@ -664,13 +788,12 @@ func replayCase(c *rp.Ctx, idx int, raw json.RawMessage) rp.Result {
 	{
 		// chosen from the case's own content, so that the case behaves the same when it is replayed alone
 		h := len(wire) + len(cs.Steps) + c.Seed
-		v := variant{API: h % 3, Seg: segs[h%3], ReadBuf: []int{0, 125}[h%2], LocalClose: true}
+		v := fixBuf(variant{API: h % 3, Seg: segs[h%3], ReadBuf: sweep(h), LocalClose: true})
 		if len(wire) > 40000 && v.Seg == "one" {
 			v.Seg = "whole"
 		}
-		o := drive(&cs, wire, v, c.Seed, maxMsgs)
-		runs++
-		if what, kind := compareMsgs(&cs, o, c.Seed, cs.Delivered); what != "" {
+		o, what, kind := run(wire, v, func(o observed) (string, string) { return compareMsgs(&cs, o, c.Seed, cs.Delivered) })
+		if what != "" {
 			return fail(what, kind, v, "stream ended after the last frame", o)
 		}
 	}
@@ -685,13 +808,14 @@ func replayCase(c *rp.Ctx, idx int, raw json.RawMessage) rp.Result {
 		rp.Bug("case %d: inconsistent step counters", i)
 	}
 	for j, off := range cutOffsets(len(wire)-lastStart, lastHdr, thorough, c.Seed+i) {
-		v := variant{API: (i + j + c.Seed) % 3, Seg: segs[(i/3+j+c.Seed)%3], ReadBuf: []int{0, 125}[(i+j)%2], EOFData: (i+j)%3 == 0}
+		v := fixBuf(variant{API: (i + j + c.Seed) % 3, Seg: segs[(i/3+j+c.Seed)%3], ReadBuf: sweep(i + j), EOFData: (i+j)%3 == 0})
 		if len(wire) > 40000 && v.Seg == "one" {
 			v.Seg = "whole"
 		}
-		o := drive(&cs, wire[:lastStart+off], v, c.Seed, maxMsgs)
-		runs++
-		if what, kind := compare(&cs, o, c.Seed, cs.Delivered[:nd], cs.Pongs[:np], last.Cut); what != "" {
+		o, what, kind := run(wire[:lastStart+off], v, func(o observed) (string, string) {
+			return compare(&cs, o, c.Seed, cs.Delivered[:nd], cs.Pongs[:np], last.Cut)
+		})
+		if what != "" {
 			return fail(what, kind, v, fmt.Sprintf("stream cut %d bytes into the last frame (header %d, frame %d bytes)", off, lastHdr, len(wire)-lastStart), o)
 		}
 	}
